@@ -41,7 +41,7 @@ var (
 	poolOrigin = u64s(0, 0, 65, 128, 255, 1000)
 	poolCost   = u64s(0, 1, 10, 10, 4294967296, 18446744073709551615)
 	poolRFlags = u64s(0, 1, 1, 2, 3, 4)
-	poolExp    = u64s(0, 1, 60000, 4294967296)
+	poolExp    = u64s(0, 1, 60000, 4294967296, 9223372036854, 9223372036855, 9223372036854775808, 18446744073709551615)
 	poolMtu    = u64s(0, 1, 10, 35, 36, 37, 56, 57, 63, 64, 65, 100, 576, 1280, 1500, 8800, 8801, 65536, 4294967296, 9223372036854775808, 18446744073709551615)
 	poolCap    = u64s(0, 1, 100, 1024, 65535, 2147483648, 4294967296, 9223372036854775807, 9223372036854775808, 18446744073709551615)
 	poolPers   = u64s(0, 0, 1, 2, 2, 3, 4294967296)
@@ -282,6 +282,14 @@ func genOp(g *common.Gen) {
 	r := g.R
 	from, nh := pickFrom(g)
 	prefix := pickPrefix(g)
+	if (from == fH0 || from == fH1) && prefix == pLocalhost && r.Chance(2, 3) {
+		// a non-local face under /localhost is dropped by the forwarder: keep a third of those
+		if r.Chance(1, 2) {
+			prefix = pLocalhop
+		} else {
+			from = fA
+		}
+	}
 	emit := func(module, verb string, tail int, params string) {
 		g.Op("cmd %d %s %s %s %s %d %s", from, nh, prefix, module, verb, tail, params)
 	}
